@@ -386,3 +386,15 @@ PROPS["C19"] = dict(
             "same values; unchecked never dimension-panics / rejects; values are plain scalar arithmetic), manual abs = abs. Not proved: "
             "that rustc's cfg selects those bodies; powf.",
 )
+
+# Every property is also checked in the RELEASE profile (debug_assertions off; the harness keeps overflow checks on, so only that one
+# switch differs): a `debug_assert!` that carries a side effect, or a check demoted to `debug_assert!`, changes behaviour only there.
+RELEASE_CHK = ("release:std,chk,devices", "chk")
+for _pid, _P in PROPS.items():
+    for _key in ("configs", "configs_thorough"):
+        if _key == "configs_thorough" and _key not in _P:
+            continue
+        _cfgs = list(_P.get(_key, [(None, "chk")]))
+        if RELEASE_CHK not in _cfgs:
+            _cfgs.append(RELEASE_CHK)
+        _P[_key] = _cfgs
